@@ -2,12 +2,13 @@ CONSTANTS
   TableUnits <- NoTable
   Units = {"la","lb","ta","nd","pc","K","degC","delta_degC"}
   ConvUnits = {"la","lb","ta","nd","pc","K","degC","delta_degC","C","statC"}
-  UKinds0 = {"q","a","az","bs","ba","z","za","lq"}
-  UKinds1 = {"q","a","az","bs","ba","bl","z","za","lq","lqm"}
+  UKinds0 = {"q","a","az","bs","ba","z","za","lq","ts","tm","nz","tq"}
+  UKinds1 = {"q","a","az","bs","ba","bl","z","za","lq","lqm","ts","tm","nz","tq"}
   UfOps = {"add","subtract","less","equal","maximum","hypot","divmod","multiply"}
   Forms = {"call","outer","operator","iop","out","at","reduce_initial"}
   ArrFns = {"concatenate","where","clip","copyto_where"}
   Fams = {"ufunc","arrfn","setitem","conv","unitop"}
+  SpUnits = {"la","K"}
 INIT Init
 NEXT Next
 INVARIANT Export
